@@ -117,6 +117,41 @@ pub fn run(reg: &dyn Registry, ctx: &Ctx) -> Outcome {
                 }
             }
         }
+        // ... nor does it get there within a few steps: generators from every seeding route (sparse seeds,
+        // u64 arguments, scripted sources through both from_rng and try_from_rng) are stepped; eight
+        // consecutive zero outputs mean the generator sits in the fixed point
+        {
+            let sparse: Vec<Vec<u8>> = crate::alphabet::w1(info.seed_len);
+            let stuck = |g: &mut Box<dyn crate::subject::Gen>| -> bool {
+                for _ in 0..4 {
+                    if info.word_bits == 32 { g.next_u32(); } else { g.next_u64(); }
+                }
+                (0..8).all(|_| if info.word_bits == 32 { g.next_u32() == 0 } else { g.next_u64() == 0 })
+            };
+            for sd in sparse.iter() {
+                ctx.add("api_seeds_checked_nonzero_state", 3);
+                let mut script = sd.clone();
+                script.extend(std::iter::repeat(0x5Au8).take(info.seed_len));
+                let mut routes: Vec<(&str, Option<Box<dyn crate::subject::Gen>>)> = Vec::new();
+                routes.push(("from_seed", crate::ops::guarded(|| ty.from_seed(sd)).ok()));
+                let mut src = crate::subject::ScriptSource::new(script.clone());
+                routes.push(("from_rng", crate::ops::guarded(|| ty.from_rng(&mut src)).ok()));
+                let mut fs = crate::subject::FallibleSource::new(script.clone(), None, crate::subject::FaultMode::Untouched, 1);
+                routes.push(("try_from_rng", crate::ops::guarded(|| ty.try_from_rng(&mut fs)).ok().and_then(|r| r.ok())));
+                let mut reported = false;
+                for (route, g) in routes.iter_mut() {
+                    if let Some(g) = g.as_mut() {
+                        if crate::ops::guarded(|| stuck(g)).unwrap_or(false) && !reported {
+                            reported = true;
+                            ctx.violation(&format!("C07:{}:api-zero-state", info.name), &format!("{}: the generator built by {} from the block {} reaches the all-zero state within 4 steps (it then returns zeros forever)", info.name, route, hex(sd)), json!({"kind":"note","route":route,"block":hex(sd)}));
+                        }
+                    }
+                }
+                if reported {
+                    break;
+                }
+            }
+        }
         if let Ok(Some(g)) = crate::ops::guarded(|| ty.default_ctor()) {
             ctx.add("api_seeds_checked_nonzero_state", 1);
             if g.ser().as_deref() == Some(&zero_img[..]) {
